@@ -7,7 +7,7 @@
     yields exactly [H ++ data] -- i.e. literal runs and matches tile the block, and every match equals the bytes at its
     distance for its whole length ([C17_copied_bytes_equal_bytes_at_distance] spells that out) -- and [apply_seq]
     refuses any distance larger than the bytes before the match.  Nothing depends on the hash function. *)
-Require Import Zrs.lib.RsPrelude Zrs.model.BlockDec Zrs.model.Matcher Zrs.proofs.C17_Matcher.
+Require Import Zrs.lib.RsPrelude Zrs.model.BlockDec Zrs.model.Matcher Zrs.proofs.C17_Matcher Zrs.proofs.C17_Shape.
 Open Scope nat_scope.
 
 Theorem C17_all_histories : forall slice_size slices ops,
@@ -58,6 +58,14 @@ Example C17_non_vacuous :
   end.
 Proof. vm_compute. reflexivity. Qed.
 
+(** the shape of one block's report: matches (each with the literals before it), then at most one trailing literal run
+    -- the block encoder relies on it when it gathers all literals into one buffer *)
+Theorem C17_block_report_shape : forall d data d' seqs,
+  mstep d (OpBlock data false) = ROk (d', Some seqs) ->
+  exists ts tail, seqs = ts ++ tail /\ Forall is_triple ts /\ (tail = [] \/ exists l, tail = [MLit l]).
+Proof. exact mstep_block_shape. Qed.
+
+Print Assumptions C17_block_report_shape.
 Print Assumptions C17_all_histories.
 Print Assumptions C17_every_step.
 Print Assumptions C17_block.
